@@ -4,6 +4,7 @@ import (
 	"encoding/json"
 	"flag"
 	"fmt"
+	"golang.org/x/tools/go/ssa"
 	"os"
 	"path/filepath"
 	"runtime/debug"
@@ -22,6 +23,7 @@ func main() {
 	tier := flag.String("tier", "", "quick|thorough")
 	explain := flag.String("explain", "", "re-derive and print a violation replay file")
 	dump := flag.Bool("dump", false, "print all obligations")
+	probe := flag.String("probe", "", "development probes (guardedby)")
 	flag.Parse()
 	if *tier == "" {
 		*tier = os.Getenv("VERIF_TIER")
@@ -32,6 +34,34 @@ func main() {
 	seed := 0
 	if s := os.Getenv("VERIF_SEED"); s != "" {
 		seed, _ = strconv.Atoi(s)
+	}
+	if *probe == "guardedby" {
+		prog, err := Load(repoDir(), "", "")
+		if err != nil {
+			fmt.Println(err)
+			os.Exit(2)
+		}
+		guardedByProbe(prog)
+		os.Exit(0)
+	}
+	if *probe == "typeswitch" {
+		prog, err := Load(repoDir(), "", "")
+		if err != nil {
+			fmt.Println(err)
+			os.Exit(2)
+		}
+		c := newCtx(prog, "C13")
+		var fns []*ssa.Function
+		for _, f := range prog.RepoFuncs {
+			if f.Parent() == nil {
+				fns = append(fns, f)
+			}
+		}
+		checkTypeSwitchArmsAssignSameVar(c, "probe", fns)
+		for _, o := range c.Obls {
+			fmt.Println(o.OK, o.Construct, o.Pos)
+		}
+		os.Exit(0)
 	}
 	if *explain != "" {
 		os.Exit(doExplain(*explain))
